@@ -1,8 +1,9 @@
 // C17 harness: juno's L1 head tracking (l1.Client) against the extracted Coq model.
-//   mode A (deterministic): applyStateUpdate / setL1Head / catchUpL1HeadUpdates driven one step at a
-//          time through the verif-tagged wrappers; head, buffer and catch-up outcome compared with
-//          the model after every step; the extracted predicates evaluated on the observed heads.
-//   mode B (run loop): Client.Run in a goroutine against a scripted provider; heads compared at ticks.
+//
+//	mode A (deterministic): applyStateUpdate / setL1Head / catchUpL1HeadUpdates driven one step at a
+//	       time through the verif-tagged wrappers; head, buffer and catch-up outcome compared with
+//	       the model after every step; the extracted predicates evaluated on the observed heads.
+//	mode B (run loop): Client.Run in a goroutine against a scripted provider; heads compared at ticks.
 package main
 
 import (
@@ -126,9 +127,9 @@ func main() {
 		c.Finish("replay of one recorded case")
 	}
 
-	nDet, nRun := 6000, 150
+	nDet, nRun := 24000, 600
 	if c.Thorough() {
-		nDet, nRun = 60000, 1500
+		nDet, nRun = 240000, 6000
 	}
 	r := hx.NewRNG(c.Seed)
 
